@@ -109,10 +109,15 @@ func (e *Evidence) Plan(c *Ctx) []hist.TxSpec {
 	case 3:
 		// two allegations opened in one block against different validators
 		a := &allegReq{id: fmt.Sprintf("%s-a-%d", e.Tag, c.H), target: gen[0], plan: "guilty", created: c.H, voted: map[string]bool{}}
-		b := &allegReq{id: fmt.Sprintf("%s-b-%d", e.Tag, c.H), target: gen[1], plan: "innocent", created: c.H, voted: map[string]bool{}}
+		bplan := "innocent"
+		if c.W.P.StakeMaturity%2 == 1 {
+			// (worlds with an odd stake maturity: both allegations end in a guilty verdict, in the same block)
+			bplan = "guilty"
+		}
+		b := &allegReq{id: fmt.Sprintf("%s-b-%d", e.Tag, c.H), target: gen[1], plan: bplan, created: c.H, voted: map[string]bool{}}
 		e.reqs = append(e.reqs, a, b)
 		out = append(out, e.allege(c, gen[3], a, "allegation against v0 (will be found guilty)"))
-		out = append(out, e.allege(c, gen[2], b, "allegation against v1 (will be found innocent)"))
+		out = append(out, e.allege(c, gen[2], b, "allegation against v1 (will be found "+bplan+")"))
 		// an outsider tries as well
 		u := c.W.Users[0]
 		sp := Build(c, "ALLEGATION", &evact.Allegation{RequestID: "outsider-" + e.Tag, ValidatorAddress: u.Addr, MaliciousAddress: gen[2].ValAddr, BlockHeight: c.H - 1, ProofMsg: "p"}, "allegation by a non-validator (must fail)", u)
@@ -173,7 +178,20 @@ func (e *Evidence) Plan(c *Ctx) []hist.TxSpec {
 				acts = append(acts, v)
 			}
 		}
-		if len(acts) >= 4 {
+		if active(gen[1]) && active(gen[2]) && active(gen[3]) && (e.n/11)%3 == 2 {
+			// the second-smallest validator is found guilty while the first one, found guilty and released
+			// earlier, keeps its old (released) record
+			r := &allegReq{id: fmt.Sprintf("%s-s-%d", e.Tag, c.H), target: gen[1], plan: "guilty", created: c.H, voted: map[string]bool{}}
+			e.reqs = append(e.reqs, r)
+			out = append(out, e.allege(c, gen[3], r, "allegation against v1 (guilty) after v0 was found guilty and released"))
+		} else if len(acts) >= 4 && (e.n/11)%3 == 0 {
+			// two validators are found guilty at the end of the same block
+			for k, t := range []*world.Validator{gen[0], gen[1]} {
+				r := &allegReq{id: fmt.Sprintf("%s-d%d-%d", e.Tag, k, c.H), target: t, plan: "guilty", created: c.H, voted: map[string]bool{}}
+				e.reqs = append(e.reqs, r)
+				out = append(out, e.allege(c, gen[3-k], r, "one of two allegations that reach their guilty verdict in the same block"))
+			}
+		} else if len(acts) >= 4 {
 			plan := []string{"guilty", "innocent", "stall"}[c.R.Intn(3)]
 			r := &allegReq{id: fmt.Sprintf("%s-r-%d", e.Tag, c.H), target: acts[0], plan: plan, created: c.H, voted: map[string]bool{}}
 			if plan == "stall" {
